@@ -2,6 +2,7 @@ package nebula
 
 import (
 	"errors"
+	"sync"
 	"log/slog"
 	"net/netip"
 )
@@ -156,4 +157,45 @@ func VerifC29Allocate() {
 	_, still := hm.indexes[idx]
 	verifAssert(!still && hm.indexes[idx2] == hh2 && hm.indexes[5] == pend, "deleting a pending handshake releases exactly its own index")
 	verifObserve("idx_small", uint64(idx&7))
+}
+
+// ---- C29: allocation racing a completion ----
+//
+// allocateIndex must do its draw, its checks against BOTH tables and its insert inside one critical section of the
+// main hostmap's read lock and the manager's lock. Another goroutine's Complete (which needs the main hostmap's WRITE
+// lock) is modelled at the one point it could slip in: when allocateIndex asks for the manager's lock while NOT
+// holding the main hostmap's read lock. The unit replaces the RWMutex operations by counters to know that.
+
+var c29MainReaders int
+var c29Other func()
+
+func c29RLock(m *sync.RWMutex)   { c29MainReaders++ }
+func c29RUnlock(m *sync.RWMutex) { c29MainReaders-- }
+func c29Lock(m *sync.RWMutex) {
+	if c29MainReaders == 0 && c29Other != nil {
+		o := c29Other
+		c29Other = nil
+		o()
+	}
+}
+
+func VerifC29Race() {
+	c29MainReaders, c29Other = 0, nil
+	hm, _ := c10World(1) // one established tunnel, index 1
+	other := &HostInfo{localIndexId: uint32(verifInt("other_index", 2, 6)), remoteIndexId: 500, vpnAddrs: []netip.Addr{c10Other}, ConnectionState: &ConnectionState{}}
+	c29Draws = []uint32{uint32(verifInt("draw0", 0, 6)), uint32(verifInt("draw1", 0, 6))}
+	c29Next = 0
+	c29Fallback = 0x01020304
+	c29Other = func() {
+		// the other handshake completes: its index enters the main table (Complete holds the write lock)
+		hm.mainHostMap.unlockedAddHostInfo(other, &Interface{})
+	}
+	hh := &HandshakeHostInfo{hostinfo: &HostInfo{vpnAddrs: []netip.Addr{c10Peer}}}
+	idx, err := hm.allocateIndex(hh)
+	verifAssert(err == nil && idx != 0, "an index is found")
+	if holder, ok := hm.mainHostMap.Indexes[idx]; ok {
+		verifAssert(holder == hh.hostinfo, "an index handed to a pending handshake is not simultaneously held by an established tunnel")
+	}
+	verifAssert(idx != 1, "an index differs from every established index")
+	verifObserve("idx", uint64(idx&7))
 }
